@@ -40,8 +40,8 @@ CONSTANTS Mode,      \* "lines" | "seqs" | "dqe"
           MaxSeq,    \* "seqs": number of commands per sequence
           DqeDepth   \* "dqe": operators over a variable
 
-VARIABLES tmpl, line, sess, hist, de, dout, dd
-vars == <<tmpl, line, sess, hist, de, dout, dd>>
+VARIABLES tmpl, line, sess, from, hist, de, dout, dd
+vars == <<tmpl, line, sess, from, hist, de, dout, dd>>
 
 D == INSTANCE Dqe WITH Mode <- "eval", MaxDepth <- DqeDepth, Rich <- FALSE, e <- de, out <- dout, d <- dd
 
@@ -128,7 +128,9 @@ Templates ==
 
 -----------------------------------------------------------------------------
 (* Valid command forms with what the user documentation promises for them.
-   need: "proc" = needs a live, stopped debuggee; "none" = works in every state.
+   need: "proc" = needs a live, stopped debuggee (refused otherwise); "image" = guaranteed with a stopped
+         debuggee, unspecified otherwise (the loaded-but-not-started process has registers and memory too);
+         "none" = works in every state.
    res : "ok" = must succeed when the need is met; "any" = may legitimately be refused.
    cls : effect class on the session (see Effect). *)
 F(t, need, res, cls) == [t |-> t, need |-> need, res |-> res, cls |-> cls]
@@ -156,11 +158,11 @@ Forms ==
      F(<<"watch", "i64v">>, "proc", "any", "q"), F(<<"w", "+rw", "i64v">>, "proc", "any", "q"),
      F(<<"watch", "0x$var$:8">>, "proc", "any", "q"), F(<<"watch", "info">>, "none", "ok", "q"),
      F(<<"w", "r", "1">>, "none", "any", "q"), F(<<"watch", "remove", "i64v">>, "none", "any", "q"),
-     F(<<"mem", "read", "0x$var$">>, "proc", "ok", "q"), F(<<"memory", "write", "0x$var$", "0x1">>, "proc", "ok", "q"),
-     F(<<"reg", "info">>, "proc", "ok", "q"), F(<<"reg", "read", "rip">>, "proc", "ok", "q"),
-     F(<<"register", "read", "nope">>, "proc", "any", "q"), F(<<"reg", "write", "rip", "0x$pc$">>, "proc", "ok", "q"),
-     F(<<"thread", "info">>, "proc", "ok", "q"), F(<<"thread", "current">>, "proc", "ok", "q"),
-     F(<<"thread", "switch", "1">>, "proc", "ok", "q"), F(<<"thread", "switch", "2">>, "proc", "any", "q"),
+     F(<<"mem", "read", "0x$var$">>, "image", "ok", "q"), F(<<"memory", "write", "0x$var$", "0x1">>, "image", "ok", "q"),
+     F(<<"reg", "info">>, "image", "ok", "q"), F(<<"reg", "read", "rip">>, "image", "ok", "q"),
+     F(<<"register", "read", "nope">>, "image", "any", "q"), F(<<"reg", "write", "rip", "0x$pc$">>, "image", "ok", "q"),
+     F(<<"thread", "info">>, "image", "ok", "q"), F(<<"thread", "current">>, "image", "ok", "q"),
+     F(<<"thread", "switch", "1">>, "image", "ok", "q"), F(<<"thread", "switch", "2">>, "image", "any", "q"),
      F(<<"sharedlib", "info">>, "none", "ok", "q"),
      F(<<"source", "asm">>, "proc", "ok", "q"), F(<<"source", "fn">>, "proc", "ok", "q"), F(<<"source", "3">>, "proc", "ok", "q"),
      F(<<"async", "bt">>, "proc", "any", "q"), F(<<"async", "backtrace", "all">>, "proc", "any", "q"),
@@ -181,6 +183,8 @@ RECURSIVE Join(_, _)
 Join(ss, sep) == IF ss = <<>> THEN "" ELSE IF Len(ss) = 1 THEN ss[1] ELSE ss[1] \o sep \o Join(Tail(ss), sep)
 Text(toks) == Join(toks, " ")
 
+(* blanks separate tokens: an empty token (a doubled blank) is no token *)
+Norm(toks) == SelectSeq(toks, LAMBDA x : x # "")
 IsForm(toks) == \E i \in DOMAIN Forms : Forms[i].t = toks
 FormOf(toks) == Forms[CHOOSE i \in DOMAIN Forms : Forms[i].t = toks]
 
@@ -192,6 +196,7 @@ Outcome(toks, st) ==
   ELSE IF IsForm(toks)
        THEN LET f == FormOf(toks) IN
             IF f.need = "proc" /\ st # "stopped" THEN {"error"}
+            ELSE IF f.need = "image" /\ st # "stopped" THEN {"ok", "error"}
             ELSE IF f.res = "ok" THEN {"ok"} ELSE {"ok", "error"}
   ELSE IF toks[1] \notin Keywords THEN {"error"}                    \* not a command at all
   ELSE {"ok", "error"}                                              \* the grammar of the arguments is the parser's business
@@ -213,12 +218,15 @@ After(toks, st) ==
 BpDelta(toks) ==
   IF toks = <<>> THEN "same"
   ELSE IF toks[1] \in {"b", "break"}
-       THEN (IF Len(toks) >= 2 /\ toks[2] \in {"remove", "r"} THEN "down" ELSE IF toks = <<toks[1], "info">> THEN "same" ELSE "up")
+       THEN (IF Len(toks) >= 3 /\ toks[2] \in {"remove", "r"} THEN "down"
+             ELSE IF Len(toks) = 2 /\ toks[2] \in {"remove", "r"} THEN "any"      \* a function of that name, or nothing
+             ELSE IF toks = <<toks[1], "info">> THEN "same" ELSE "up")
   ELSE IF toks[1] \in ResumeKw \cup {"watch", "w"} THEN "any"      \* restarts, temporary and companion breakpoints
   ELSE "same"
 
-Rec(kind, toks) ==
-  [kind |-> kind, toks |-> toks, text |-> Text(toks), form |-> IsForm(toks),
+Rec(kind, raw) ==
+  LET toks == Norm(raw) IN
+  [kind |-> kind, toks |-> toks, text |-> Text(raw), form |-> IsForm(toks),
    exp |-> [s \in States |-> Outcome(toks, s)], after |-> [s \in States |-> After(toks, s)],
    bp |-> BpDelta(toks), resume |-> (toks # <<>> /\ toks[1] \in ResumeKw)]
 
@@ -251,6 +259,13 @@ SeqCmds ==
   IN IF Rich THEN base \o more ELSE base
 
 S0 == [st |-> "notstarted", bp |-> FALSE, hit |-> FALSE, wild |-> FALSE]
+(* Sequences are enumerated from EVERY consistent abstract session state, not only from S0: the driver
+   chains them into long walks through one real session (a fresh session costs seconds), starting each
+   sequence in the state the previous one ended in. *)
+AbsStates == {s \in [st : States, bp : BOOLEAN, hit : BOOLEAN, wild : BOOLEAN] :
+                /\ s.st = "notstarted" => (~s.hit /\ ~s.wild)
+                /\ s.st = "stopped" => (s.hit \/ s.wild)      \* a stop happens at the probe line only
+                /\ s.hit => s.bp \/ s.st # "notstarted"}
 
 (* Set of <<outcome set, next abstract state>> of a command class in an abstract state.
    wild = the program counter was overwritten by the user: the program may do anything from then on. *)
@@ -289,7 +304,9 @@ XPrefix == <<"**", "*&", "~*", "&~">>
 
 -----------------------------------------------------------------------------
 Init ==
-  /\ sess = S0 /\ hist = <<>> /\ dout = {} /\ dd = 0
+  /\ hist = <<>> /\ dout = {} /\ dd = 0
+  /\ IF Mode = "seqs" THEN sess \in AbsStates ELSE sess = S0
+  /\ from = sess
   /\ CASE Mode = "lines" -> /\ de = D!Var("x")
                             /\ \/ /\ tmpl \in DOMAIN Templates /\ line = <<>>
                                \/ /\ tmpl = 0 /\ line \in Mutants
@@ -305,7 +322,7 @@ Token ==
         /\ \E k \in DOMAIN Slot(T[Len(line) + 1]) : line' = Append(line, Slot(T[Len(line) + 1])[k])
      \/ /\ Len(line) = Len(T)
         /\ \E k \in DOMAIN Junk : line' = Append(line, Junk[k])
-  /\ UNCHANGED <<tmpl, sess, hist, de, dout, dd>>
+  /\ UNCHANGED <<tmpl, sess, from, hist, de, dout, dd>>
 
 (* submit one command of the sequence alphabet to the abstract session *)
 Submit ==
@@ -313,15 +330,15 @@ Submit ==
   /\ \E i \in DOMAIN SeqCmds : \E r \in Apply(SeqCmds[i], sess) :
         /\ sess' = r[2]
         /\ hist' = Append(hist, [name |-> SeqCmds[i].name, text |-> Text(SeqCmds[i].toks), yes |-> SeqCmds[i].yes,
-                                 exp |-> r[1], st |-> r[2].st])
-  /\ UNCHANGED <<tmpl, line, de, dout, dd>>
+                                 exp |-> r[1], st |-> r[2].st, abs |-> r[2]])
+  /\ UNCHANGED <<tmpl, line, from, de, dout, dd>>
 
 (* one more operator of Dqe.tla's alphabet over the expression *)
 Extend ==
   /\ Mode = "dqe" /\ dd < DqeDepth
   /\ \E i \in DOMAIN D!Ops : de' = D!Apply(D!Ops[i], de)
   /\ dd' = dd + 1
-  /\ UNCHANGED <<tmpl, line, sess, hist, dout>>
+  /\ UNCHANGED <<tmpl, line, sess, from, hist, dout>>
 
 Next == Token \/ Submit \/ Extend
 Spec == Init /\ [][Next]_vars
@@ -330,7 +347,7 @@ Spec == Init /\ [][Next]_vars
 (* Printed once per distinct state. *)
 EmitLine == (Mode = "lines" /\ (line # <<>> \/ tmpl = 0)) =>
               PrintT(<<"LINE", ToJson(Rec(IF tmpl = 0 THEN "mutant" ELSE "template", line))>>)
-EmitSeq  == (Mode = "seqs" /\ hist # <<>>) => PrintT(<<"SEQ", ToJson(hist)>>)
+EmitSeq  == (Mode = "seqs" /\ hist # <<>>) => PrintT(<<"SEQ", ToJson([from |-> from, steps |-> hist])>>)
 RECURSIVE RootOf(_)
 RootOf(x) == IF x.op = "var" THEN x.name ELSE RootOf(x.e)
 EmitDqe  == Mode = "dqe" =>
